@@ -626,6 +626,15 @@ func dischargeIndex(p *core.Program, s *indexSite) (string, bool) {
 					return isC && ir.CallName(c.Common()) == "builtin.len" && ir.Path(c.Call.Args[0]) == ir.Path(s.x)
 				}); g && nonNegative(fn, s.in, b.X) {
 					okHi = true
+				} else if _, g := ir.GuardedBy(fn, ir.Entry(fn), s.in, false, func(a ir.Atom) bool {
+					// the fall-through of `if len(s) <= pos { return }`
+					if a.V != nil || a.Op != token.LEQ || a.Y != b.X {
+						return false
+					}
+					c, isC := a.X.(*ssa.Call)
+					return isC && ir.CallName(c.Common()) == "builtin.len" && ir.Path(c.Call.Args[0]) == ir.Path(s.x)
+				}); g && nonNegative(fn, s.in, b.X) {
+					okHi = true
 				}
 			}
 		}
